@@ -120,17 +120,6 @@ func c13GenLogResources(r *vRand, n int, conflict bool) []*resource.Resource {
 	if len(out) == 0 {
 		out = append(out, nil)
 	}
-	if !conflict {
-		// F32 only under the tag "reskey" (see the trace leg)
-		for i := range out {
-			for j := 0; j < i; j++ {
-				if out[j].Equivalent() == out[i].Equivalent() {
-					out[i] = out[j]
-					break
-				}
-			}
-		}
-	}
 	return out
 }
 
@@ -177,8 +166,13 @@ func c13GenLogBatch(tag string, cs uint64, idx int) []log.Record {
 	case "wit-f18":
 		// F18 witness (fixed in e7e7b80): DroppedAttributes 7 must arrive as dropped_attributes_count 7
 		return []log.Record{logtest.RecordFactory{Body: api.StringValue("b"), DroppedAttributes: 7}.NewRecord()}
+	case "fixed":
+		// one record whose encoded size does not depend on the seed
+		return []log.Record{logtest.RecordFactory{Body: api.StringValue("fixed-" + c13Hex16(r.U64())), Severity: api.SeverityInfo, SeverityText: "INFO",
+			Timestamp: time.Unix(1700000000, int64(r.Intn(1000000000))), ObservedTimestamp: time.Unix(1700000001, int64(r.Intn(1000000000))),
+			Attributes: []api.KeyValue{api.String("k", c13Hex16(r.U64()))}, Resource: resource.NewSchemaless(attribute.String("service.name", "fixed"))}.NewRecord()}
 	case "wit-f32":
-		// minimal F32 witness: same resource attributes, schema URLs "a" and "b"
+		// former F32 witness (repaired in 089ce94): same resource attributes, schema URLs "a" and "b"
 		return []log.Record{
 			logtest.RecordFactory{Body: api.StringValue("b"), Resource: resource.NewWithAttributes("a", attribute.String("r", "1"))}.NewRecord(),
 			logtest.RecordFactory{Body: api.StringValue("b"), Resource: resource.NewWithAttributes("b", attribute.String("r", "1"))}.NewRecord(),
